@@ -17,11 +17,11 @@ MOD = FX.__name__
 
 def _install_main_aliases():
     """The documented default for an omitted "module" is `__main__`: the fixtures are also reachable there, under other names
-    (so that a lookup in any other module finds nothing)."""
+    (hooks) or under the same names but as other classes (so that a lookup in the wrong module shows)."""
     import __main__
     __main__.main_hook = FX.hook
-    __main__.MainSystem = FX.FxSystem
-    __main__.MainAgent = FX.FxAgent
+    __main__.FxSystem = FX.FxSystemMain          # the same class NAMES as in the fixtures module, other classes
+    __main__.FxAgent = FX.FxAgentMain
 
 
 def to_file_doc(d):
@@ -44,7 +44,7 @@ def to_file_doc(d):
     if d["post"]:
         doc["post_model_decode"] = hk("post_model")
     for i, s in enumerate(d["systems"], start=1):
-        sd = {**named("FxSystem", "MainSystem"),
+        sd = {**named("FxSystem", "FxSystem"),
               "params": {"i": i, "id": s["id"], "priority": s["prio"], "frequency": s["freq"], "start": s["start"],
                          "end": sys.maxsize if s["end"] >= 999999 else s["end"]}}
         if s["pre"]:
@@ -53,7 +53,7 @@ def to_file_doc(d):
             sd["post_system_init"] = hk("post_system", i)
         doc["systems"].append(sd)
     for j, g in enumerate(d["groups"], start=1):
-        gd = {**named("FxAgent", "MainAgent"), "number": g["n"], "params": {"j": j}}
+        gd = {**named("FxAgent", "FxAgent"), "number": g["n"], "params": {"j": j}}
         if g["pre"]:
             gd["pre_agent_init"] = hk("pre_agents", j)
             if j == 1 and d.get("swap"):
@@ -70,6 +70,7 @@ def run_program(prog):
     _install_main_aliases()
     try:
         for n, d in enumerate(prog):
+            d.setdefault("nomod", 0)
             path = os.path.join(tmp, "m%d.json" % (n % 2))       # alternate between two files
             with open(path, "w") as f:
                 json.dump(to_file_doc(d), f)
@@ -83,15 +84,16 @@ def run_program(prog):
                     pass
                 seen = []
                 for sid, s in m.systems.systems.items():
-                    seen.append([str(s.id), int(s.priority), int(s.frequency), int(s.start), 999999 if s.end >= 999999 else int(s.end)])
+                    seen.append([str(s.id), int(s.priority), int(s.frequency), int(s.start), 999999 if s.end >= 999999 else int(s.end),
+                                 str(getattr(s, "origin", "?"))])
                 final["systems"] = seen
-                final["agents"] = [list(getattr(a, "where", (-1, -1))) for a in m.environment]
+                final["agents"] = [list(getattr(a, "where", (-1, -1))) + [str(getattr(a, "origin", "?"))] for a in m.environment]
                 if not d.get("closed"):
                     del FX.RAN[:]
                     m.execute()                   # timestep 0 of the decoded model
                     final["ran"] = list(FX.RAN)
                 if m is not FX.CURRENT[0]:
-                    final["agents"].append([-7, -7])
+                    final["agents"].append([-7, -7, "?"])
             except Exception as e:  # noqa: BLE001
                 exc = e
             events.append({"op": "decode", "desc": d, "out": "ok" if exc is None else "Unexpected:" + type(exc).__name__,
